@@ -158,15 +158,18 @@ def explore(facts, max_depth=6, bursts=None):
             moves.append(([("map", None)], False))
             moves.append(([("register", None)], False))
         # failing children: a failed (re/un)registration must not lose a child
-        for method in (("reregister", "unregister") if P else ("register",)):
+        # (.. nor may a child whose event processing fails once: the error is the application's to handle, the wrapper
+        # must still own - and keep forwarding to - its registered child)
+        for method in (("reregister", "unregister", "process_events") if P else ("register",)):
+            cr0 = "Continue" if method == "process_events" else None
             try:
-                ev0, _, _ = tab.step(method, st, None, "p%d" % nid)
+                ev0, _, _ = tab.step(method, st, cr0, "p%d" % nid)
             except Unsupported:
                 continue
             nops = len([e for e in ev0 if e[0] == "child"])
             for k in range(nops):
                 try:
-                    evs, st_f, ret_f = tab.step(method, st, None, "p%d" % nid, fail_at=k)
+                    evs, st_f, ret_f = tab.step(method, st, cr0, "p%d" % nid, fail_at=k)
                 except Unsupported as e:
                     extraction_errors["%s x %s (child op %d fails)" % (st.variant, method, k)] = str(e)
                     continue
